@@ -6,8 +6,10 @@ import (
 	_ "verif/mc/drivers/c04"
 	_ "verif/mc/drivers/c05"
 	_ "verif/mc/drivers/c06"
+	_ "verif/mc/drivers/c09"
 	_ "verif/mc/drivers/c11"
 	_ "verif/mc/drivers/c14"
 	_ "verif/mc/drivers/c15"
 	_ "verif/mc/drivers/c19"
+	_ "verif/mc/drivers/c20"
 )
